@@ -157,6 +157,12 @@ pub fn generate(prop: Prop, seed: u64, run: u64, thorough: bool) -> RunSpec {
             prof.max_universe = 1024;
         }
     }
+    if cfg!(miri) {
+        // the interpreter is ~10^4 times slower: short histories on small universes
+        prof.max_len = 16;
+        prof.max_universe = 32;
+        prof.long_runs = false;
+    }
     let mut spec = gen::generate(&mut rng, &prof);
     if let Some(m) = enum_mode {
         // the sampled state must stay small enough to enumerate every prefix
@@ -164,6 +170,17 @@ pub fn generate(prop: Prop, seed: u64, run: u64, thorough: bool) -> RunSpec {
     }
     if prop == Prop::C10 {
         spec.mode = Some("enum-args".to_string());
+    }
+    if prop == Prop::C05 && rng.chance(1, 3) && !spec.ops.is_empty() {
+        // memory safety must also hold after caught panics in user code: one or two injected
+        // panics per run; the run adopts what the collections hold and goes on (ASan, canaries
+        // and the cursor invariant keep watching)
+        for _ in 0..rng.range(1, 2) {
+            let at = rng.below(spec.ops.len() as u64) as usize;
+            if !spec.faults.iter().any(|f| f.at == at) {
+                spec.faults.push(Fault { at, nth: 1 + rng.below(9) });
+            }
+        }
     }
     if prop == Prop::C08 && spec.mode.is_none() && rng.chance(1, 3) && !spec.ops.is_empty() {
         let at = rng.below(spec.ops.len() as u64) as usize;
